@@ -112,6 +112,26 @@ pub fn run(tier: Tier, rep: &mut Report) {
     let (n, e, gens_b) = distinct_prefixes(AIDGenerator::verif_at((1u64 << 40) - 2 * 2048), 3 * 2048 + 1, "AIDGenerator at 2^40-4096");
     evals += n;
     viol.extend(e);
+    // blocks at allocation markers far apart must not collide with each other or with block 0
+    {
+        let mut seen: HashSet<[u8; 5]> = HashSet::new();
+        for marker in [0u64, 2048, (1 << 24) - 2048, 1 << 24, 2 << 24, 1 << 32, (1u64 << 40) - 2048] {
+            let mut a = AIDGenerator::verif_at(marker);
+            for i in 0..2048 {
+                let mut g = a.generate();
+                let t = g.generate();
+                evals += 1;
+                if t.action_id() != g.action_id() {
+                    viol.push(("activity-prefix-changes".into(), format!("marker {marker} activity #{i}: id {} not attributed to its own activity", hex(t.as_ref()))));
+                    break;
+                }
+                if !seen.insert(prefix(&t)) {
+                    viol.push(("activities-share-prefix".into(), format!("activity #{i} of the block at allocation marker {marker} gets prefix {} which an activity of another block already has", hex(&prefix(&t)))));
+                    break;
+                }
+            }
+        }
+    }
     rep.set("activities_generated", evals);
 
     let mut gens: Vec<(String, (MIDGenerator, TransactionID))> = vec![];
